@@ -624,9 +624,42 @@ pub fn run_check<C: Check>(opts: &RunOpts) -> i32 {
     let total = nfixed + nrandom;
     let base = mix(opts.seed, hash_str(id));
     let threads = opts.threads.max(1);
+    // stall monitor: a case that does not finish (a hang in the code under test or in the harness) must not
+    // block the check forever; it is reported as inconclusive (exit 2), never as a violation
+    let stall_s: u64 = std::env::var("E57_STALL_S").ok().and_then(|v| v.parse().ok()).unwrap_or(300);
+    let busy: Vec<(AtomicU64, AtomicU64)> = (0..threads).map(|_| (AtomicU64::new(0), AtomicU64::new(0))).collect();
+    let workers_done = AtomicU64::new(0);
+    let t0 = Instant::now();
     std::thread::scope(|sc| {
+        {
+            let busy = &busy;
+            let workers_done = &workers_done;
+            let fixed = &fixed;
+            let tier = opts.tier;
+            sc.spawn(move || {
+                while workers_done.load(Ordering::Relaxed) < threads as u64 {
+                    std::thread::sleep(std::time::Duration::from_millis(500));
+                    let now = t0.elapsed().as_millis() as u64 + 1;
+                    for (since, idx) in busy.iter() {
+                        let st = since.load(Ordering::Relaxed);
+                        if st != 0 && now.saturating_sub(st) > stall_s * 1000 {
+                            let i = idx.load(Ordering::Relaxed) as usize;
+                            eprintln!("{id}: inconclusive: case #{i} did not finish within {stall_s} s (hang or extreme slowness; not reported as a violation)");
+                            let (case, _) = case_for::<C>(fixed, i, base, tier);
+                            let js = serde_json::to_string_pretty(&ReplayFile { property: id.to_string(), message: format!("did not finish within {stall_s} s"), case, tape_hex: None }).unwrap_or_default();
+                            let path = out_dir().join(format!("{id}-stall-{:016x}.json", hash_str(&js)));
+                            let _ = std::fs::write(&path, js);
+                            eprintln!("case written to {}", path.display());
+                            std::process::exit(2);
+                        }
+                    }
+                }
+            });
+        }
         for t in 0..threads {
             let fixed = &fixed;
+            let busy = &busy;
+            let workers_done = &workers_done;
             let stop = &stop;
             let found = &found;
             let account = &account;
@@ -650,7 +683,10 @@ pub fn run_check<C: Check>(opts: &RunOpts) -> i32 {
                             }
                         }
                     };
+                    busy[t].1.store(idx as u64, Ordering::Relaxed);
+                    busy[t].0.store(t0.elapsed().as_millis() as u64 + 1, Ordering::Relaxed);
                     let v = settle(C::ID, known, run_guarded::<C>(&case));
+                    busy[t].0.store(0, Ordering::Relaxed);
                     account(&case, &v, idx);
                     if let Outcome::Infra(m) = &v.outcome {
                         eprintln!("{}: infrastructure problem (harness or reference model, not the code under test) in case #{idx}: {m}", C::ID);
@@ -670,6 +706,8 @@ pub fn run_check<C: Check>(opts: &RunOpts) -> i32 {
                     }
                     idx += threads;
                 }
+                busy[t].0.store(0, Ordering::Relaxed);
+                workers_done.fetch_add(1, Ordering::Relaxed);
             });
         }
     });
